@@ -58,6 +58,19 @@ pub fn fixed_random_state() -> std::collections::hash_map::RandomState {
     unsafe { core::mem::transmute_copy::<[u64; 2], std::collections::hash_map::RandomState>(&keys) }
 }
 
+/// replaces smallvec::SmallVec::push where the harness guarantees (and this stub ASSERTS) that the inline
+/// capacity suffices: removes the spill-to-heap path, which is what makes a SmallVec with a symbolic length
+/// exceed memory (three conditional pushes > 40 GB)
+pub fn smallvec_push_inline<A: smallvec::Array>(v: &mut smallvec::SmallVec<A>, x: A::Item) {
+    let l = v.len();
+    kani::assert(l < A::size(), "[cap] SmallVec::push beyond its inline capacity");
+    kani::assume(l < A::size());
+    unsafe {
+        core::ptr::write(v.as_mut_ptr().add(l), x);
+        v.set_len(l + 1);
+    }
+}
+
 /// poll a future once with a no-op waker (the bigtools encode/process futures have no real
 /// suspension point once the channel is always ready)
 pub fn poll_once<F: Future>(f: F) -> Option<F::Output> {
@@ -157,6 +170,30 @@ pub mod env {
         let _ = fake_start_send(s, msg);
     }
 
+    /// target of the source substitution `H.await.unwrap()` -> `join_now(H)` (harness c14_write_data_fault):
+    /// the result of an already finished task
+    pub fn join_now(h: Msg) -> Out {
+        #[cfg(not(verif_replay))]
+        unsafe {
+            let p: *mut Out = core::mem::transmute_copy::<Msg, *mut Out>(&h);
+            core::mem::forget(h);
+            *Box::from_raw(p)
+        }
+        #[cfg(verif_replay)]
+        {
+            futures::executor::block_on(h).unwrap()
+        }
+    }
+
+    /// stub for crossbeam_channel::Sender::send: count only (the receiving side is not part of the harness)
+    pub static mut CB_SENT_RAW: usize = 0x5EED_0000_0000_0300;
+    pub fn cb_sent() -> usize { unsafe { CB_SENT_RAW - 0x5EED_0000_0000_0300 } }
+    pub fn fake_cb_send<T>(_s: &crossbeam_channel::Sender<T>, msg: T) -> Result<(), crossbeam_channel::SendError<T>> {
+        core::mem::forget(msg);
+        unsafe { CB_SENT_RAW += 1; }
+        Ok(())
+    }
+
     pub struct Env {
         #[cfg(not(verif_replay))]
         handle: MaybeUninit<Handle>,
@@ -177,7 +214,7 @@ pub mod env {
                 #[cfg(not(verif_replay))]
                 handle: MaybeUninit::uninit(),
                 #[cfg(verif_replay)]
-                rt: tokio::runtime::Builder::new_current_thread().build().unwrap(),
+                rt: tokio::runtime::Builder::new_multi_thread().worker_threads(1).build().unwrap(),
                 tx,
                 rx,
                 taken: 0,
@@ -206,6 +243,19 @@ pub mod env {
             #[cfg(verif_replay)]
             {
                 self.rt.handle().clone()
+            }
+        }
+        /// a task handle whose task has already completed with `out` (kani: the boxed-output token that
+        /// fake_spawn produces; native replay: a real task on the real runtime)
+        pub fn ready_task(&self, out: Out) -> Msg {
+            #[cfg(not(verif_replay))]
+            unsafe {
+                let p: *mut Out = Box::into_raw(Box::new(out));
+                core::mem::transmute_copy::<*mut Out, Msg>(&p)
+            }
+            #[cfg(verif_replay)]
+            {
+                self.rt.spawn(async move { out })
             }
         }
         /// number of sections sent so far
